@@ -221,3 +221,38 @@ Proof.
     destruct (pq_last_value pfx l' x Hpfx Hs Hf Hne) as (r & Er & Esl). rewrite <- Ev in Er, Esl. rewrite Er, Esl, El.
     unfold last_opt. rewrite rev_app_distr. reflexivity.
 Qed.
+
+(* C12: first() and file_name() *)
+Theorem pq_first_spec v : none_of [QM; HASH] v -> option_map (slice v) (pq_first v) = hd_error (segs v).
+Proof.
+  intros H. unfold pq_first. destruct (path_is_empty v) eqn:E.
+  - destruct v as [|c [|d r]]; try discriminate; [reflexivity|]. cbn [path_is_empty] in E. unfold segs. rewrite E. reflexivity.
+  - set (pfx := if is_abs v then [SLASH] else @nil N).
+    assert (Hp : v = P pfx (segs v)). { unfold P, pfx. pose proof (render_segs v) as R. unfold render in R. now rewrite R. }
+    assert (Hf : first_off (P pfx (segs v)) = length pfx) by (rewrite <- Hp; unfold first_off, pfx; destruct (is_abs v); reflexivity).
+    destruct (segs v) as [|s0 r0] eqn:El.
+    + exfalso. unfold P in Hp. cbn [join] in Hp. rewrite app_nil_r in Hp. rewrite Hp in E. unfold pfx in E. destruct (is_abs v); discriminate E.
+    + rewrite <- El in *. assert (Hn : nth_error (segs v) 0 = Some s0) by (rewrite El; reflexivity).
+      destruct (P_at pfx (segs v) 0 s0 Hn) as [Ep _]. cbn [firstn joinS concat map] in Ep. rewrite app_nil_r in Ep.
+      assert (Hs0 : seg_ok s0). { pose proof (segs_seg_ok v H) as Hs. rewrite El in Hs. now inversion Hs. }
+      cbn [option_map fst]. rewrite El. cbn [hd_error]. f_equal.
+      replace (first_off v) with (length pfx) by (rewrite Hp at 1; symmetry; exact Hf).
+      rewrite Hp at 1 2. rewrite Ep, (segment_at_spec pfx s0 _ Hs0 (restR_ok (segs v) 0)). cbn [fst].
+      unfold slice. cbn [fst snd]. rewrite skipn_app_len. replace (length pfx + length s0 - length pfx) with (length s0) by lia.
+      rewrite firstn_app, Nat.sub_diag, firstn_all. cbn [firstn]. apply app_nil_r.
+Qed.
+
+Theorem pq_file_name_spec v : none_of [QM; HASH] v ->
+  match pq_file_name v with
+  | Some (Some r) => last_opt (segs v) = Some (slice v r) /\ snd r <> fst r
+  | Some None => match last_opt (segs v) with Some x => x = [] | None => True end
+  | None => False
+  end.
+Proof.
+  intros H. pose proof (file_or_last_raw_spec v H) as F. unfold pq_file_or_last_raw in F. unfold pq_file_name.
+  destruct (it_next_back v (segments v)) as [[[r|] st]|]; [| |discriminate F].
+  - injection F as F. destruct (snd r =? fst r) eqn:Er.
+    + rewrite <- F. apply Nat.eqb_eq in Er. unfold slice. rewrite Er, Nat.sub_diag. reflexivity.
+    + split; [symmetry; exact F | now apply Nat.eqb_neq].
+  - injection F as F. rewrite <- F. exact I.
+Qed.
